@@ -564,7 +564,7 @@ def _xor_key(key, i):
     return SBy([(e ^ i) if isinstance(e, int) else (SI(e) ^ i).e for e in SBy.of(key).els])
 
 
-def h6_keyderiv(rev=3, timeout=300, part=None, **kw):
+def h6_keyderiv(rev=3, timeout=300, part=None, pwlens=None, keybytes=None, **kw):
     """Algorithms 2-7 for R2-R4 (RC4 / AESV2 handlers): both the user and the owner password derive the file key the standard prescribes"""
     import pdfminer.pdfdocument as pd
     shims = numshim.install("pdfdocument", "pdftypes")
@@ -572,10 +572,12 @@ def h6_keyderiv(rev=3, timeout=300, part=None, **kw):
 
     def fn(ex):
         uf, Hash, Sha256, stream = _install_uf(ex, pd)
-        n = 5 if rev == 2 else (16 if rev == 4 else [5, 7, 16][ex.choice(3, "keybytes")])
+        PW = list(pwlens or PWLENS)
+        KB = list(keybytes or [5, 7, 16])
+        n = 5 if rev == 2 else (16 if rev == 4 else KB[ex.choice(len(KB), "keybytes")])
         em = (ex.choice(2, "encrypt_metadata") == 1) if rev == 4 else True
-        upw = SByI(sbytes.sym_bytes(ex, "u", PWLENS[ex.choice(3, "ulen")]).els)
-        opw = SByI(sbytes.sym_bytes(ex, "o", PWLENS[ex.choice(3, "olen")]).els)
+        upw = SByI(sbytes.sym_bytes(ex, "u", PW[ex.choice(len(PW), "ulen")]).els)
+        opw = SByI(sbytes.sym_bytes(ex, "o", PW[ex.choice(len(PW), "olen")]).els)
         docid = SByI(sbytes.sym_bytes(ex, "id", 2).els)
         Ps = ex.int("P", -2 ** 31, 2 ** 31 - 1)              # as stored: a signed 32-bit integer
         P = SI(z3.If(Ps.e < 0, Ps.e + 2 ** 32, Ps.e))
@@ -630,7 +632,7 @@ def h6_keyderiv(rev=3, timeout=300, part=None, **kw):
                 "tail": mb(info["tail"]), "who": info["who"]}
     H = pd.PDFStandardSecurityHandler
     return core.run_symx("H6_keyderiv", fn, [pd.uint_value, H.compute_encryption_key, H.compute_u, H.verify_encryption_key, H.authenticate_user_password, H.authenticate_owner_password],
-                         {"revision": rev, "key bytes": "5" if rev == 2 else ("16" if rev == 4 else "5 / 7 / 16"), "passwords": "user and owner, %r symbolic bytes each" % PWLENS, "P": "symbolic signed 32-bit, through the real uint_value",
+                         {"revision": rev, "key bytes": "5" if rev == 2 else ("16" if rev == 4 else "%r" % (keybytes or [5, 7, 16])), "passwords": "user and owner, %r symbolic bytes each" % (pwlens or PWLENS), "P": "symbolic signed 32-bit, through the real uint_value",
                           "ID[0]": "2 symbolic bytes", "EncryptMetadata": "true/false (R4)", "primitives": "md5 / RC4 as uninterpreted functions"}, timeout, concretize=conc,
                          shims={"namespace_shims": shims + ["md5 / Arcfour -> uninterpreted functions (z3 UF over an absorb chain)", "struct.pack('<L') -> little-endian arithmetic", "pdfdocument.bytes"],
                                 "ast_rewritten": patched}, part=part)
@@ -706,11 +708,12 @@ R6_PATTERNS = {"sha256": lambda r: 0, "sha384": lambda r: 1, "sha512": lambda r:
 R6_EXTRA = 2
 
 
-def h6_r6hash(pattern="cycle", timeout=300, **kw):
+def h6_r6hash(pattern="cycle", timeout=300, extra=None, part=None, **kw):
     """Algorithm 2.B (ISO 32000-2 7.6.4.3.4): the revision-6 hash, with SHA-256/384/512 and AES-128-CBC as uninterpreted functions.  The AES outputs are constrained so
     that the SHA selection follows `pattern` and the loop ends after 64 .. 64+R6_EXTRA rounds; the last byte of the 64th.. outputs stays symbolic."""
     import pdfminer.pdfdocument as pd
     shims = numshim.install("pdfdocument")
+    R6_EXTRA = globals()["R6_EXTRA"] if extra is None else extra
 
     def fn(ex):
         uf, Hash, Sha256, stream = _install_uf(ex, pd)
@@ -780,7 +783,7 @@ def h6_r6hash(pattern="cycle", timeout=300, **kw):
     return core.run_symx("H6_r6hash", fn, [H._password_hash, H._r6_password, H._bytes_mod_3, H._aes_cbc_encrypt],
                          {"password": "0 / 1 / 3 symbolic bytes", "salt": "8 symbolic bytes", "udata": "absent or 48 symbolic bytes", "sha selection": "pattern %r (the first AES output block is fixed to (c, 0, .., 0), c the pattern's residue mod 3)" % pattern,
                           "rounds": "64 .. %d (last byte of the AES output symbolic)" % (64 + R6_EXTRA), "primitives": "SHA-256/384/512, AES-128-CBC as uninterpreted functions; 64 copies kept folded"},
-                         timeout, concretize=conc, shims={"namespace_shims": shims + ["sha256/384/512, Cipher -> uninterpreted functions"]}, int_lo=0, int_hi=2)
+                         timeout, concretize=conc, shims={"namespace_shims": shims + ["sha256/384/512, Cipher -> uninterpreted functions"]}, int_lo=0, int_hi=2, part=part)
 
 
 def replay(harness, inp):
@@ -949,9 +952,18 @@ def replay(harness, inp):
 
 
 def jobs(tier):
-    KD = [Job("H6_keyderiv:R2", "h6_keyderiv", {"rev": 2}, 600, "H6_keyderiv")] + [Job("H6_keyderiv:R4:%d" % k, "h6_keyderiv", {"rev": 4, "part": [k, 4, 3]}, 600, "H6_keyderiv") for k in range(4)] + \
-         [Job("H6_keyderiv:R3:%d" % k, "h6_keyderiv", {"rev": 3, "part": [k, 6, 4]}, 600, "H6_keyderiv") for k in range(6)] + [Job("H6_r5", "h6_r5", {}, 300), Job("H6_r5:R6", "h6_r5", {"rev": 6}, 300, "H6_r5")] + \
-         [Job("H6_r6hash:%s" % pt, "h6_r6hash", {"pattern": pt}, 600, "H6_r6hash") for pt in (("cycle", "mixed") if tier == "quick" else sorted(R6_PATTERNS))]
+    if tier == "quick":
+        KD = [Job("H6_keyderiv:R2", "h6_keyderiv", {"rev": 2}, 600, "H6_keyderiv")] + [Job("H6_keyderiv:R4:%d" % k, "h6_keyderiv", {"rev": 4, "part": [k, 4, 3]}, 600, "H6_keyderiv") for k in range(4)] + \
+             [Job("H6_keyderiv:R3:%d" % k, "h6_keyderiv", {"rev": 3, "part": [k, 6, 4]}, 600, "H6_keyderiv") for k in range(6)] + \
+             [Job("H6_r5", "h6_r5", {}, 300), Job("H6_r5:R6", "h6_r5", {"rev": 6}, 300, "H6_r5")] + \
+             [Job("H6_r6hash:%s" % pt, "h6_r6hash", {"pattern": pt}, 600, "H6_r6hash") for pt in ("cycle", "mixed")]
+    else:               # more password lengths (around the 32-byte pad), every key length that is a multiple of 8 bits, all five SHA-selection patterns with up to 4 extra rounds
+        PW, KB = [0, 1, 31, 32, 33], [5, 6, 7, 8, 10, 12, 13, 16]
+        KD = [Job("H6_keyderiv:R2:%d" % k, "h6_keyderiv", {"rev": 2, "pwlens": PW, "part": [k, 2, 3]}, 1200, "H6_keyderiv") for k in range(2)] + \
+             [Job("H6_keyderiv:R4:%d" % k, "h6_keyderiv", {"rev": 4, "pwlens": PW, "part": [k, 10, 5]}, 1800, "H6_keyderiv") for k in range(10)] + \
+             [Job("H6_keyderiv:R3:%d" % k, "h6_keyderiv", {"rev": 3, "pwlens": [0, 1, 33], "keybytes": KB, "part": [k, 16, 6]}, 1800, "H6_keyderiv") for k in range(16)] + \
+             [Job("H6_r5", "h6_r5", {}, 300), Job("H6_r5:R6", "h6_r5", {"rev": 6}, 300, "H6_r5")] + \
+             [Job("H6_r6hash:%s:%d" % (pt, k), "h6_r6hash", {"pattern": pt, "extra": 4, "part": [k, 2, 3]}, 1800, "H6_r6hash") for pt in sorted(R6_PATTERNS) for k in range(2)]
     J = KD + [Job("H1_permissions", "h1_permissions", {}, 60), Job("H2_where", "h2_where", {}, 150), Job("H4_keys", "h4_keys", {}, 150), Job("H5_metadata", "h5_metadata", {}, 60)]
     for k in range(2):
         J.append(Job("H3_padding:%d" % k, "h3_padding", {"part": [k, 2, 5]}, 200, "H3_padding"))
